@@ -354,7 +354,7 @@ def r20_4(run, model):
                f"delegates to lower_path: {via}; builds Some(..) itself: {len(somes)}")
     from rules import c03
     run.rule("R20.5", "the types the query tables record are fully resolved (shared with C03 R03.9)")
-    run.try_rule(c03.r03_9, model)
+    run.try_rule(c03.r03_9, model, ("subst_ty_silent",))
 
 
 def run(run, model):
